@@ -94,6 +94,24 @@ func main() {
 		code := driver.Check(e, spec)
 		os.RemoveAll(e.Scratch)
 		os.Exit(code)
+	case "survey":
+		if len(os.Args) < 3 {
+			usage()
+		}
+		e := newEnv()
+		for i := 3; i < len(os.Args); i++ {
+			if os.Args[i] == "--tier" && i+1 < len(os.Args) {
+				e.Tier = os.Args[i+1]
+				i++
+			}
+		}
+		spec := driver.Specs()[os.Args[2]]
+		if spec == nil {
+			usage()
+		}
+		code := driver.Survey(e, spec)
+		os.RemoveAll(e.Scratch)
+		os.Exit(code)
 	case "replay":
 		if len(os.Args) < 3 {
 			usage()
